@@ -47,7 +47,7 @@ def constants_spec(draw):
 
 
 @st.composite
-def model_spec(draw, models=MODELS, dims=(2, 2, 2, 3), simplex=False, max_fracs=3, nonmatching=False, units=False):
+def model_spec(draw, models=MODELS, dims=(2, 2, 2, 3), simplex=False, max_fracs=3, nonmatching=False, units=False, long=0, adflux=()):
     model = draw(st.sampled_from(list(models)))
     if nonmatching and model in ("mass_balance", "energy") and draw(st.integers(0, 2)) == 0:
         # unit square, up to two orthogonal fractures, fracture and mortar grids refined independently
@@ -73,10 +73,29 @@ def model_spec(draw, models=MODELS, dims=(2, 2, 2, 3), simplex=False, max_fracs=
     out = {"model": model, "dim": dim, "fracs": fracs, "cartesian": cartesian, "fluid": fluid, "solid": solid,
            "compressible": compressible, "dt": draw(st.sampled_from([0.1, 1.0, 10.0])),
            "amp": draw(st.sampled_from([0.01, 0.1, 0.5])), "pseed": draw(st.integers(0, 2**31 - 1))}
+    if long and dim == 2 and cartesian and 0 in fracs and draw(st.integers(0, long - 1)) == 0:
+        out["long"] = draw(st.sampled_from([400, 600]))
+        out["fracs"] = [0]
+    if adflux and draw(st.integers(0, 3)) == 0:
+        # the differentiable (state-dependent tensor) variants of Darcy's / Fourier's law, on top of the named base
+        # discretisation (with "mpfa" the library documents the Jacobian as an approximation)
+        out["adflux"] = draw(st.sampled_from(list(adflux)))
     if units and draw(st.integers(0, 2)) == 0:
         # simulation units: all lengths / masses are expressed in multiples of these (numbers change magnitude)
         out["units"] = {"m": draw(st.sampled_from([1e-2, 1e2, 1e4])), "kg": draw(st.sampled_from([1.0, 1e-3, 1e3]))}
     return out
+
+
+def _long_mesh(nx):
+    """Meshing arguments for the 2-d three-fracture geometry with nx cells along x (and 2 along y): the horizontal
+    fracture 0 then has nx cells, so fracture / interface operators reach thousands of stored entries."""
+
+    class LongMesh:
+        def meshing_arguments(self):
+            ls = self.units.convert_units(1, "m")
+            return {"cell_size_x": 2.0 / nx * ls, "cell_size_y": 0.5 * ls}
+
+    return LongMesh
 
 
 def model_class(name, dim, extra_mixins=(), geom="default"):
@@ -121,6 +140,25 @@ def build_model(spec, extra_mixins=(), extra_params=None):
                       fracture_refinement_ratio=spec["frac_ratio"], interface_refinement_ratio=spec["intf_ratio"])
     if extra_params:
         params.update(extra_params)
+    if spec.get("adflux"):
+        from porepy.models import constitutive_laws as cl
+
+        ad = (cl.DarcysLawAd,) + ((cl.FouriersLawAd,) if spec["model"] in ("energy", "thermoporomechanics") else ())
+        extra_mixins = tuple(extra_mixins) + ad
+        if spec["adflux"] == "tpfa":
+
+            class TpfaBase:
+                """Two-point base discretisation of the fluxes (the library default is MPFA)."""
+
+                def darcy_flux_discretization(self, subdomains):
+                    return pp.ad.TpfaAd(self.darcy_keyword, subdomains)
+
+                def fourier_flux_discretization(self, subdomains):
+                    return pp.ad.TpfaAd(self.fourier_keyword, subdomains)
+
+            extra_mixins = (TpfaBase,) + extra_mixins
+    if spec.get("long"):
+        extra_mixins = (_long_mesh(int(spec["long"])),) + tuple(extra_mixins)
     m = model_class(spec["model"], spec["dim"], extra_mixins, spec.get("geom", "default"))(params)
     m.prepare_simulation()
     return m
@@ -149,4 +187,8 @@ def model_labels(spec, m):
         labs.append("nonmatching")
     if spec.get("units"):
         labs.append("scaled-units")
+    if spec.get("long"):
+        labs.append("long-fracture")
+    if spec.get("adflux"):
+        labs += ["ad-flux", "ad-flux-" + (spec["adflux"] if isinstance(spec["adflux"], str) else "mpfa")]
     return labs
